@@ -61,6 +61,11 @@ func (x *Exec) call(st *State, fr *Frame, at ssa.Instruction, cc *ssa.CallCommon
 		st.meta["ret:"+name] = v
 		origBind(v)
 	}
+	if st.meta == nil {
+		st.meta = map[string]Val{}
+	}
+	// ... and what it was handed (spec: lastarg("pattern", k))
+	st.meta["args:"+name] = Val{Tup: append([]Val(nil), args...)}
 
 	// interface invoke with statically known dynamic type -> concrete method
 	if cc.IsInvoke() && fnv.Dyn != nil && fnv.Dyn.Typ != nil {
@@ -440,8 +445,8 @@ func (x *Exec) callAbstract(st *State, fr *Frame, at ssa.Instruction, name strin
 		if len(touchedWorlds) == 0 && x.mayReachWorld(fn, cc) {
 			touchedWorlds[0] = true
 		}
-		for w := range touchedWorlds {
-			if w < len(st.worlds) {
+		for w := 0; w < len(st.worlds); w++ {
+			if touchedWorlds[w] {
 				old := st.worlds[w]
 				x.D.DeclareFun("eff", []string{SStr, SWorld, SInt}, SWorld)
 				st.nEvents++
@@ -981,25 +986,27 @@ func (x *Exec) appendOp(st *State, fr *Frame, at ssa.Instruction, args []Val) Va
 	// content: exact when the appended slice has a concrete small length
 	k := concreteInt(addLen)
 	if add.T.Sort == SSlice && k >= 0 && k <= 8 {
-		// new row: shifted copy of old row (offset normalised to 0 via arr.shift) then stores
-		if shf := "arr.shift." + mangle(sort); !x.D.HasFun(shf) {
-			x.D.DeclareFun(shf, []string{ArraySort(SInt, sort), SInt}, ArraySort(SInt, sort))
-			x.D.Axiom(fmt.Sprintf("(forall ((a %[1]s) (o Int) (i Int)) (! (= (select (%[2]s a o) i) (select a (+ o i))) :pattern ((select (%[2]s a o) i))))", ArraySort(SInt, sort), shf))
-		}
-		row := App(ArraySort(SInt, sort), "arr.shift."+mangle(sort), oldRow, sOff)
-		// arr.shift(a, off)[i] == a[off+i] for the indices we care about is instantiated lazily by spec
-		// evaluation (see selectElem); here we keep row symbolic and add the new elements
 		addRow := Select(arr, App(SRef, "s.base", add.T))
 		addOff := App(SInt, "s.off", add.T)
 		if sOff.S == "0" {
-			row = oldRow
-		} else {
-			x.shiftFacts = append(x.shiftFacts, [3]Term{row, oldRow, sOff})
+			// the old row itself, then stores of the new elements
+			row := oldRow
+			for i := 0; i < k; i++ {
+				row = Store(row, App(SInt, "+", sLen, IntLit(int64(i))), Select(addRow, App(SInt, "+", addOff, IntLit(int64(i)))))
+			}
+			x.setHeap(st, n, Store(arr, base, row))
+			return res
 		}
+		// symbolic offset: the new row is a fresh array N with N[i] = old[off+i] below the old length
+		// (quantified, triggered by reads of N) and N[len+i] = added[i] (ground facts)
+		rowS := ArraySort(SInt, sort)
+		oldDef := x.define(st, "aold", oldRow)
+		nrow := x.D.Fresh("arow", rowS)
+		st.assume(Term{fmt.Sprintf("(forall ((i Int)) (! (=> (and (<= 0 i) (< i %[1]s)) (= (select %[2]s i) (select %[3]s (+ %[4]s i)))) :pattern ((select %[2]s i))))", sLen.S, nrow.S, oldDef.S, sOff.S), SBool})
 		for i := 0; i < k; i++ {
-			row = Store(row, App(SInt, "+", sLen, IntLit(int64(i))), Select(addRow, App(SInt, "+", addOff, IntLit(int64(i)))))
+			st.assume(Eq(Select(nrow, App(SInt, "+", sLen, IntLit(int64(i)))), Select(addRow, App(SInt, "+", addOff, IntLit(int64(i))))))
 		}
-		x.setHeap(st, n, Store(arr, base, row))
+		x.setHeap(st, n, Store(arr, base, nrow))
 		return res
 	}
 	// general case: abstract content
@@ -1404,7 +1411,7 @@ func (x *Exec) checkContinuesAfter(st *State, fr *Frame, at ssa.Instruction) {
 func exprUsesPathBuiltins(e Expr) bool {
 	switch e := e.(type) {
 	case ECall:
-		if e.Fun == "ncalls" || e.Fun == "lastret" || e.Fun == "local" {
+		if e.Fun == "ncalls" || e.Fun == "lastret" || e.Fun == "lastarg" || e.Fun == "local" {
 			return true
 		}
 		if e.Recv != nil && exprUsesPathBuiltins(e.Recv) {
